@@ -238,9 +238,10 @@ Fixpoint json_implied_type (norm : str -> str) (j : jv) : res ty :=
          | [] => Ok (TObj (fold_left (fun a kt => kv_insert (norm (fst kt)) (snd kt) a) acc []) [])   (* cty.Object normalises the names *)
          | kv :: l' =>
              do t <- json_implied_type norm (snd kv);
-             match lookup (fst kv) acc with
+             let k := norm (fst kv) in             (* fix: commit 2800b09 (names are normalised as they are read) *)
+             match lookup k acc with
              | Some t0 => if ty_equals t0 t then go l' acc else Err OtherError
-             | None => go l' (kv_insert (fst kv) t acc)
+             | None => go l' (kv_insert k t acc)
              end
          end) m []
   end.
